@@ -111,7 +111,7 @@ def key_fn(it, res, fails):
 
 def main(tier, seed):
     quick = tier == "quick"
-    items = [it for it in C.corpus_files()][:10] + C.generated(seed, 8 if quick else 80, ngoals=2)
+    items = [it for it in C.corpus_files()][:10] + C.generated(seed, 6 if quick else 80, ngoals=2)
     for it in items:
         gl = it.get("goals") or []
         it["stat_goals"] = [g for g in gl if "*" not in g.replace("**", "")][:2] or gl[:1]
